@@ -60,6 +60,11 @@ FOOTPRINT = {
 }
 
 
+def codec_fields():
+    import codec
+    return [f for f, _, _ in codec.STATE] + ["*"]
+
+
 def relevant(pid, d):
     fields, phases = FOOTPRINT[pid]
     if phases is not None and d["phase"] not in phases:
@@ -213,6 +218,8 @@ def drop_task(spec, k):
         tm["targets"] = [re(i) for i in tm.get("targets", []) if i != k]
     for p in s.get("workplaces", []):
         p["targets"] = [re(i) for i in p.get("targets", []) if i != k]
+    for t in s["tasks"]:
+        t.pop("wps_order", None)
     for c in s.get("components", []):
         c["tasks"] = [re(i) for i in c.get("tasks", []) if i != k]
     return s
@@ -320,7 +327,13 @@ def widen_search(ctx):
         return []
     import preds
     if pid not in preds.PREDS:
-        return []
+        # history/pure properties: re-run the property's own stream with a larger budget and another seed
+        try:
+            c2 = Context(pid=pid, seed=ctx.seed + 4242, tier="thorough", n_override=(ctx.n_override or 0) * 4 or {"C15": 160, "C17": 120, "C18": 400, "C09": 160, "C16": 200, "C20": 160, "C19": None}.get(pid))
+            REGISTRY[pid]["run"](c2)
+            return c2.violations[:3]
+        except Exception:
+            return []
     out = []
     # 1. the disagreeing cases themselves and their neighbours (predicate only)
     n = 1500 if ctx.tier == "quick" else 20000
@@ -424,12 +437,29 @@ def run_c10_full(ctx):
 
 REGISTRY["C08"] = dict(run=run_c08_full, footprint_doc=REGISTRY["C08"]["footprint_doc"] + "; history ops")
 REGISTRY["C10"] = dict(run=run_c10_full, footprint_doc=REGISTRY["C10"]["footprint_doc"] + "; removal histories (search only)")
-REGISTRY["C09"] = dict(run=_hp.run_c09, footprint_doc="whole runs under permuted set-iteration orders, rebuilt objects, repeated simulate, fresh processes")
+def run_c09_full(ctx):
+    """phase-level lockstep (the order-independence theorems are about the model: every phase must
+    agree with the code) + whole runs under permuted iteration orders / identities / processes"""
+    results = simstream.run_stream(ctx.seed, ctx.n(160, 8000), "full", [])
+    absorb_sim(ctx, results, "full")
+    ev, dn, tv, samples, matrix, rule = ctx.evaluations, ctx.distinct_nontrivial, ctx.traces_validated, ctx.samples, ctx.matrix, ctx.rule
+    _hp.run_c09(ctx)
+    ctx.evaluations += ev
+    ctx.distinct_nontrivial += dn
+    ctx.traces_validated += tv
+    ctx.samples = (ctx.samples + samples)[:3]
+    matrix.update(ctx.matrix)
+    ctx.matrix = matrix
+    ctx.rule = ctx.rule + "; plus: " + rule
+
+
+REGISTRY["C09"] = dict(run=run_c09_full, footprint_doc="every phase x every field (lockstep); whole runs under permuted set-iteration orders, rebuilt objects, repeated simulate, fresh processes")
 REGISTRY["C15"] = dict(run=_hp.run_c15, footprint_doc="pause/resume histories at every k, in memory and through JSON")
 REGISTRY["C17"] = dict(run=_hp.run_c17, footprint_doc="backward_simulate histories incl. exception injection at observer calls")
 REGISTRY["C18"] = dict(run=_hp.run_c18, footprint_doc="remove/insert_absence_time_list histories")
-for _p in ("C09", "C15", "C17", "C18"):
+for _p in ("C15", "C17", "C18"):
     FOOTPRINT.setdefault(_p, (["*"], None))
+FOOTPRINT["C09"] = (codec_fields(), None)
 
 import persist as _pe
 REGISTRY["C16"] = dict(run=_pe.run_c16, footprint_doc="write_simple_json / read_simple_json at five life stages; static inspection of constructor parameters")
